@@ -49,11 +49,12 @@ class Builder:
     """
 
     def __init__(self, d, prefix, lb=1, lf=1, feat='unary', base_alpha=CATCHAR, feat_alpha=FEATCHAR,
-                 slashes='/\\', tern_alpha=TERNCHAR, lk=1, full=None, plain_alpha=PLAIN):
+                 slashes='/\\', tern_alpha=TERNCHAR, lk=1, full=None, plain_alpha=PLAIN, keys=None, defaults=('d1', 'd2', 'd3')):
         self.d, self.p, self.lb, self.lf, self.feat = d, prefix, lb, lf, feat
         self.ba, self.fa, self.ta, self.slashes, self.lk = base_alpha, feat_alpha, tern_alpha, slashes, lk
         self.n = 0
         self.full, self.pa, self.leaf = full, plain_alpha, -1
+        self.keys, self.defaults = keys, defaults
 
     def _name(self, kind):
         self.n += 1
@@ -77,7 +78,15 @@ class Builder:
         if f == 'ternary':
             kvs = []
             for i in range(3):
-                kvs.append((d.string(self._name('k'), self.lk, ta), d.string(self._name('v'), self.lf, ta)))
+                if self.keys is None:
+                    k = d.string(self._name('k'), self.lk, ta)
+                else:
+                    k = self.keys[i]
+                if self.keys is None or self._isfull() or i == 0:
+                    v = d.string(self._name('v'), self.lf, ta)
+                else:
+                    v = self.defaults[i]      # non-focus leaves: one symbolic value, two fixed ones
+                kvs.append((k, v))
             return C.TernaryFeature(*kvs)
         raise ValueError(f)
 
